@@ -255,6 +255,7 @@ class Guard:
         effect = "permit" if decision_str == "permit" else "deny"
         obligations_list = list(raw.get("obligations") or [])
         challenge = raw.get("challenge")
+        reason = raw.get("reason")
         allowed = decision_str == "permit"
 
         if allowed:
@@ -266,7 +267,8 @@ class Guard:
                 # Auto-deny when an obligation is not met
                 if not allowed:
                     effect = "deny"
-                    raw["reason"] = "obligation_failed"
+                    # kept out of `raw`: with a cache that is the cache's own entry
+                    reason = "obligation_failed"
             except Exception:
                 # do not fail on obligation checker errors
                 logger.exception("RBACX: obligation checker failed", exc_info=True)
@@ -278,7 +280,7 @@ class Guard:
             challenge=challenge,
             rule_id=raw.get("last_rule_id") or raw.get("rule_id"),
             policy_id=raw.get("policy_id"),
-            reason=raw.get("reason"),
+            reason=reason,
         )
 
         # metrics (do not use return values; conditionally await)
